@@ -13,9 +13,11 @@ delivers `chunks`.
   line, the BOM top-up rule included) depends only on the concatenation of the chunks. The error COLUMN
   is excluded: sen.ParseReader does not rebase the newline offset between read buffers (the sen suite
   pins it), which the model follows.
-* `chunks_irrelevant_full_false_*`: with any one of the three deviations switched on (the code as it
-  is) the statement is false; the witnesses are in corpus/C03sen.txt and are replayed against the Go
-  code on every run (known findings C03sen-token-end-chunk, C03sen-newline-skip-chunk, C03sen-int19). -/
+* `chunks_irrelevant_full_false_token`, `_int19`: with `tokSlow` or `fastInt` on (the code as it is) the
+  statement is false; the witnesses are in corpus/C03sen.txt and are replayed against the Go code on
+  every run (known findings C03sen-token-end-chunk, C03sen-int19);
+* `chunk_dependence_newline_before` / `_current`: the third deviation, `nlSkip`, was repaired by 7b94de8
+  (the flag is off in the code as it is). -/
 namespace OjgVerif.C03sen
 open OjgVerif OjgVerif.Sen
 open OjgVerif.Json (topUp topUpAux bomRuleReader BomRes)
@@ -244,12 +246,12 @@ theorem chunks_irrelevant (h : Repaired cfg) (hr : cfg.reader = true) (prev : St
     eraseCol (call T cfg prev chunks) = eraseCol (call T cfg prev [chunks.flatten]) := by
   have hrun : ∀ cs, call T cfg prev cs =
       match topUp (cs.filter (!·.isEmpty)) with
-      | [] => finish T cfg prev.entry {}
+      | [] => finish T cfg (prev.entry cfg) {}
       | c :: rest =>
         match bomRuleReader c with
         | .bad => .error { line := 1, col := 3, kind := .bom }
-        | .strip r => afterBom T cfg prev.entry (r :: rest)
-        | .keep => afterBom T cfg prev.entry (c :: rest) := by
+        | .strip r => afterBom T cfg (prev.entry cfg) (r :: rest)
+        | .keep => afterBom T cfg (prev.entry cfg) (c :: rest) := by
     intro cs
     unfold call afterBom
     simp only [hr, ↓reduceIte]
@@ -296,7 +298,7 @@ theorem chunks_irrelevant (h : Repaired cfg) (hr : cfg.reader = true) (prev : St
         simp
 
 /-- non-vacuity: the repaired configuration of sen.ParseReader -/
-example : Repaired { reader := true, fastInt := false, tokSlow := false, nlSkip := false } := ⟨rfl, rfl, rfl⟩
+example : Repaired { reader := true, fastInt := false, tokSlow := false } := ⟨rfl, rfl, rfl⟩
 
 /-! ## The full statement is false for the code as it is -/
 
@@ -317,11 +319,18 @@ theorem chunks_irrelevant_full_false_token : ¬ chunks_irrelevant_full := by
   revert this
   decide +kernel
 
-/-- `{a\n,:1}`: accepted in one piece, an error when the reader splits after the newline (nlSkip) -/
-theorem chunks_irrelevant_full_false_newline : ¬ chunks_irrelevant_full := by
-  intro h
-  have := h { reader := true } [[123, 97, 10], [44, 58, 49, 125]] rfl
-  revert this
+/-- BEFORE 7b94de8 (`nlSkip` on): `{a\n,:1}` was accepted in one piece and an error when the reader split
+after the newline (was known finding C03sen-newline-skip-chunk; the skip loop now tests the table of the
+current mode, i.e. `nlSkip` is off in the code as it is, and `chunks_irrelevant` needs it off) -/
+theorem chunk_dependence_newline_before :
+    accepts (run refTables { reader := true, nlSkip := true } [[123, 97, 10], [44, 58, 49, 125]]) ≠
+    accepts (run refTables { reader := true, nlSkip := true } [[123, 97, 10, 44, 58, 49, 125]]) := by
+  decide +kernel
+
+/-- the code as it is: the same input gives the same outcome (an error) however it is split -/
+theorem chunk_dependence_newline_current :
+    accepts (run refTables { reader := true } [[123, 97, 10], [44, 58, 49, 125]]) =
+    accepts (run refTables { reader := true } [[123, 97, 10, 44, 58, 49, 125]]) := by
   decide +kernel
 
 /-- `[9223372036854775800.E2]`: the integer fast loop goes over to text, after which `.E` is an
